@@ -99,7 +99,7 @@ V_ENSURES(V_IMP(g_ms_ret == 0 && !stopping, g.sys_stopped == V_OLD(g.sys_stopped
  * module was deregistered inside its stop callback (the nested deregistration emitted it) */
 V_ENSURES(V_IMP(g_ms_ret == 0 && stopping, g.srcs_dropped == V_OLD(g.srcs_dropped) + 1 && g.reset_calls == V_OLD(g.reset_calls) + 1
                 && (g_mod->state == M_MOD_STOPPED || g_mod->state == M_MOD_ZOMBIE)
-                && g.on_stop_calls == V_OLD(g.on_stop_calls) + (g_mod->hook.on_stop != NULL ? 1 : 0) && g.on_start_calls == V_OLD(g.on_start_calls)))  /*@C01.stop-callback-exactly-once*/
+                && g.on_stop_calls == V_OLD(g.on_stop_calls) + (g_mod->hook.on_stop != NULL ? 1 : 0) && g.on_start_calls == V_OLD(g.on_start_calls)))  /*@C01.stop-callback-exactly-once*/ /*@C07.running-or-paused-module-stopped-through-its-stop-callback*/
 V_ENSURES(V_IMP(g_ms_ret == 0 && stopping, V_RET == (g_mod->state == M_MOD_ZOMBIE ? -ENOENT : 0)
                 && g.sys_stopped == V_OLD(g.sys_stopped) + 1 && g.sys_started == V_OLD(g.sys_started)))     /*@C19.one-stopped-notification-per-stop*/
 ;
